@@ -364,12 +364,34 @@ def check_mesh_conversions(ctx, case, rng):
                     # orientation-seed defect recorded for C16 (check point displaced by 1e-5 extents leaves the body)
                     from vfw.oracles import meshes as MZ
                     Vc, Fk = np.array(made[name].vertices), np.array(made[name].faces)
-                    T = Vc[Fk]
-                    nrm = np.cross(T[:, 1] - T[:, 0], T[:, 2] - T[:, 0])
-                    nrm /= np.linalg.norm(nrm, axis=1)[:, None] + 1e-300
-                    width = np.abs(np.einsum("fk,fvk->fv", nrm, Vc[None, :, :] - T[:, :1, :])).max(axis=1).min()
-                    extra = {"inside_out": bool(MZ.signed_volume(Vc, Fk) < 0),
-                             "body_width<=1e-4_extent": bool(width <= 1e-4 * float(np.ptp(Vc, axis=0).max()))}
+                    extra = {"inside_out": bool(MZ.signed_volume(Vc, Fk) < 0)}
+                    if name == "from_ConvexHull":
+                        # replay of the mechanism on the faces the library was handed (qhull's unoriented simplices,
+                        # seed = first facet): the check point sits 1e-5 mesh extents from the seed facet's centre
+                        # along the normal of the GIVEN winding; the defect is that this point, meant to be just
+                        # inside or just outside, has already left the (convex) body on the far side
+                        from scipy.spatial import ConvexHull
+                        Vh = np.array(V, float)
+                        S = ConvexHull(Vh).simplices
+                        tri = Vh[S[0]]
+                        nh = np.cross(tri[0] - tri[1], tri[1] - tri[2])
+                        nh /= np.linalg.norm(nh)
+                        ext = float(np.ptp(Vh[S].reshape(-1, 3), axis=0).max())
+                        c0 = tri.mean(axis=0)
+                        inward = np.dot(nh, Vh.mean(axis=0) - c0) > 0
+                        through = 0.0
+                        if inward:   # thickness of the body under the seed facet's centre along nh
+                            ts = []
+                            for f in S[1:]:
+                                a, b, c_ = Vh[f]
+                                nf = np.cross(b - a, c_ - a)
+                                den = float(np.dot(nf, nh))
+                                if abs(den) > 0:
+                                    t = float(np.dot(nf, a - c0)) / den
+                                    if t > 0:
+                                        ts.append(t)
+                            through = min(ts) if ts else np.inf
+                        extra["seed_check_point_beyond_body"] = bool(inward and through <= 1.0e-5 * ext * (1 + 1e-6))
                 ctx.violation({"kind": "conversion-changes-field", "conversion": name, "field": F, **extra}, case,
                               {"err": float(dd.max()), "ref": ref[F].ravel()[:3], "got": val.ravel()[:3]})
                 return
